@@ -27,20 +27,14 @@ Proof.
             forallb (claim_quiet (wit_set w)) (w_pods w) = true -> claim_value (wit_set w) (w_pods w) = w_pods w ->
             gsr_value ex_hashes (wit_set w) (sort_revs (lrevs w (wit_set w))) = Some (wit_gsr w) ->
             cur = rinfo_of (fst (fst (wit_gsr w))) -> rx_upd = rinfo_of (snd (fst (wit_gsr w))) ->
-            forallb (fun j => forallb (fun t => smemb (claim_name t "web" j) (w_claims w)) ["data"%string]) [0; 2; 3] = true ->
             regular ex_hashes rx_set rx_upd 4 [1] w cur).
-  { intros w cur H1 H2 H3 H4 H5 H6 H7 H8.
+  { intros w cur H1 H2 H3 H4 H5 H6 H7.
     assert (Es : wit_set w = set_status rx_set (s_status (wit_set w)) (s_rv (wit_set w))).
     { unfold wit_set at 1. rewrite H1. reflexivity. }
     exists (s_status (wit_set w)), (s_rv (wit_set w)), (fst (fst (wit_gsr w))), (snd (fst (wit_gsr w))), (snd (wit_gsr w)).
     cbv zeta. rewrite <- Es. split; [rewrite H1, <- Es; reflexivity|].
     split; [exact H2|]. split; [exact H3|]. split; [exact H4|].
-    split; [rewrite H5; destruct (wit_gsr w) as [[a b] c]; reflexivity|]. split; [exact H6|]. split; [exact H7|].
-    intros j R t Ht. apply in_range_iff_desired in R.
-    assert (Hj : In j [0; 2; 3]) by (vm_compute in R; exact R).
-    rewrite forallb_forall in H8. specialize (H8 j Hj). rewrite forallb_forall in H8.
-    assert (Hc : s_claims (wit_set w) = ["data"%string] /\ s_name (wit_set w) = "web"%string) by (rewrite Es; split; reflexivity).
-    destruct Hc as [Hc1 Hc2]. rewrite Hc1 in Ht. rewrite Hc2. apply (H8 t Ht). }
+    split; [rewrite H5; destruct (wit_gsr w) as [[a b] c]; reflexivity|]. split; [exact H6 | exact H7]. }
   do 8 (destruct k as [|k]; [apply G; vm_compute; reflexivity|]). lia.
 Qed.
 
@@ -73,6 +67,9 @@ Proof.
   - repeat constructor; cbn; intros H; repeat (destruct H as [H|H]; [discriminate|]); exact H.
 Qed.
 
+Lemma rx_names : NoDup (flat_map (fun j => map (fun t => claim_name t (s_name rx_set) j) (s_claims rx_set)) (ordinals_of 4 [1])).
+Proof. vm_compute. repeat (constructor; [intros H; cbn in H; repeat (destruct H as [H|H]; [discriminate|]); exact H|]). constructor. Qed.
+
 (* the theorem applies: the pods of the full model's API state converge within mu = 6 fair rounds *)
 Theorem rx_converges :
   exists k, Z.of_nat k <= 6
@@ -88,6 +85,7 @@ Proof.
   - reflexivity.
   - reflexivity.
   - reflexivity.
+  - apply rx_names.
   - intros k. reflexivity.
   - apply rx_regular.
   - apply rx_wf.
@@ -113,14 +111,13 @@ Proof.
   - reflexivity.
   - reflexivity.
   - reflexivity.
+  - apply rx_names.
   - reflexivity.
   - intros k. reflexivity.
   - reflexivity.
   - apply rx_wf.
   - apply rx_wf.
   - intros p [<-|[<-|[<-|[]]]]; vm_compute; repeat split.
-  - intros j R t [<-|[]]. apply in_range_iff_desired in R. vm_compute in R.
-    destruct R as [<-|[<-|[<-|[]]]]; reflexivity.
   - reflexivity.
   - vm_compute. reflexivity.
   - reflexivity.
@@ -144,14 +141,13 @@ Proof.
   - reflexivity.
   - reflexivity.
   - reflexivity.
+  - apply rx_names.
   - reflexivity.
   - intros k. reflexivity.
   - reflexivity.
   - apply rx_wf.
   - apply rx_wf.
   - intros p [<-|[<-|[<-|[]]]]; vm_compute; repeat split.
-  - intros j R t [<-|[]]. apply in_range_iff_desired in R. vm_compute in R.
-    destruct R as [<-|[<-|[<-|[]]]]; reflexivity.
   - reflexivity.
   - vm_compute. reflexivity.
   - reflexivity.
